@@ -59,3 +59,5 @@ import PyYetiVerif.Props.C16Heap
 #print axioms PyYetiVerif.C16.aliased_first_call_modifies_part
 #print axioms PyYetiVerif.C16.psd_srs_env_is_max_over_cases
 #print axioms PyYetiVerif.C16.psd_srs_case_scaling
+#print axioms PyYetiVerif.C16.heap_run_is_run2
+#print axioms PyYetiVerif.C16.nested_envelope_is_recursive_extrema
